@@ -21,7 +21,7 @@ func init() {
 		Harness:   declsHarness,
 		Overrides: declsOverrides,
 		Entries: []Entry{
-			{PkgPath: goosePkg, Func: "verifC04Order", Opt: big},
+			{PkgPath: goosePkg, Func: "verifC04Order", Opt: big, Replay: "model"},
 		},
 		Covers: []string{"c04/order/acyclic", "c04/order/cyclic"},
 		Bounds: "declaration-ordering kernel: N ≤ 3 (quick) / 4 (thorough) declarations, every directed dependency relation (cyclic ones included), an optional unresolvable dependency, every split over ≤ 2 files",
@@ -37,7 +37,7 @@ func init() {
 		Harness:   declsHarness,
 		Overrides: declsOverrides,
 		Entries: []Entry{
-			{PkgPath: goosePkg, Func: "verifC07Containment", Opt: big},
+			{PkgPath: goosePkg, Func: "verifC07Containment", Opt: big, Replay: "model"},
 		},
 		Covers: []string{"c07/contained", "c07/foreign"},
 		Bounds: "error containment/aggregation kernel: N ≤ 2 (quick) / 3 (thorough) declarations over ≤ 2 files, each with outcome ∈ {ok, unsupported, todo, future, impossible(go), impossible(no-examples), foreign panic}, every dependency relation",
@@ -54,7 +54,7 @@ func init() {
 		Harness:   declsHarness,
 		Overrides: declsOverrides,
 		Entries: []Entry{
-			{PkgPath: goosePkg, Func: "verifC06Deterministic", Opt: big},
+			{PkgPath: goosePkg, Func: "verifC06Deterministic", Opt: big, Replay: "model"},
 			{PkgPath: goosePkg, Func: "verifC06SortedFiles", Opt: big},
 			{PkgPath: goosePkg, Func: "verifC06SortedFilesSym", Opt: big},
 		},
